@@ -34,7 +34,8 @@ Inductive rx := RxBad | RxOk (m : str -> bool).
 Record request := {
   q_iface : str;
   q_tstatus : tstatus;          (* ParseTemplates of this entry *)
-  q_path : path;                (* Clean(dir/filename), absolute *)
+  q_key : str;                  (* Config.FilePath().String() = Clean(dir/filename): the map key *)
+  q_path : path;                (* the file that this string denotes (relative: below the cwd) *)
   q_pkgname : str;
   q_template : str;             (* interface-level `template` value: only compared, see k_template *)
   q_prep_ok : bool;             (* method data can be built (replace-type targets exist) *)
@@ -95,8 +96,8 @@ Record world := {
   w_modaux : list (str * list str) -> bool;   (* see Cfg/GoMod.v *)
   w_fs : fs;
   w_ro : romap;
-  w_content : path -> str;          (* what Generate returns for the file at this path *)
-  w_valid_go : path -> bool         (* is that text accepted by gofmt / goimports *)
+  w_content : str -> str;           (* what Generate returns for the collection with this key *)
+  w_valid_go : str -> bool          (* is that text accepted by gofmt / goimports *)
 }.
 
 (* ---------- config.Initialize: recursive packages ---------- *)
@@ -151,7 +152,8 @@ Definition should_generate (p : package) (name : str) : option bool :=
 
 (* ---------- grouping by output file (mockFileToInterfaces, InterfaceCollection) ---------- *)
 Record coll := {
-  k_path : path;
+  k_key : str;                  (* the map key *)
+  k_path : path;                (* outFilePath: the file the key denotes *)
   k_pkg : package;              (* srcPkg of the first interface *)
   k_pkgname : str;
   k_template : str;
@@ -165,12 +167,12 @@ Definition same_group (k : coll) (p : package) (q : request) : bool :=
 (* NewInterfaceCollection on first sight of the path, then Append with its checks *)
 Fixpoint add_req (m : list coll) (p : package) (q : request) : option (list coll) :=
   match m with
-  | [] => Some [ {| k_path := q_path q; k_pkg := p; k_pkgname := q_pkgname q;
+  | [] => Some [ {| k_key := q_key q; k_path := q_path q; k_pkg := p; k_pkgname := q_pkgname q;
                     k_template := q_template q; k_reqs := [q] |} ]
   | k :: t =>
-    if path_eqb (k_path k) (q_path q) then
+    if seqb (k_key k) (q_key q) then
       if same_group k p q
-      then Some ({| k_path := k_path k; k_pkg := k_pkg k; k_pkgname := k_pkgname k;
+      then Some ({| k_key := k_key k; k_path := k_path k; k_pkg := k_pkg k; k_pkgname := k_pkgname k;
                     k_template := k_template k; k_reqs := k_reqs k ++ [q] |} :: t)
       else None
     else option_map (cons k) (add_req t p q)
@@ -203,10 +205,10 @@ Fixpoint collect (m : list coll) (ds : list (package * decl)) : option (list col
     end
   end.
 
-Fixpoint find_coll (m : list coll) (p : path) : option coll :=
+Fixpoint find_coll (m : list coll) (key : str) : option coll :=
   match m with
   | [] => None
-  | k :: t => if path_eqb (k_path k) p then Some k else find_coll t p
+  | k :: t => if seqb (k_key k) key then Some k else find_coll t key
   end.
 
 (* ---------- the missing map ---------- *)
@@ -243,7 +245,7 @@ Definition pure_failure (w : world) (k : coll) : option stage :=
   else if validates c && negb (c_data_ok c && forallb q_data_ok (k_reqs k)) then Some SValidate
   else if negb (c_tparses c) then Some SParseTemplate
   else if negb (forallb q_exec_ok (k_reqs k)) then Some SExecute
-  else if negb (format_ok (w_formatter w) (w_valid_go w (k_path k))) then Some SFormat
+  else if negb (format_ok (w_formatter w) (w_valid_go w (k_key k))) then Some SFormat
   else None.
 
 Definition gomod_ok (w : world) (f : fs) (dir : path) : bool :=
@@ -267,14 +269,14 @@ Definition gen_file (w : world) (f : fs) (k : coll) : fres * fs :=
            let '(ok2, f2) := mkdir_all (w_ro w) f1 (parent (k_path k)) in
            if negb ok2 then (FFail SMkOutDir, f2)
            else if exists_ f2 (k_path k) && negb (c_force c) then (FFail SExists, f2)
-           else match write_file (w_ro w) f2 (k_path k) (w_content w (k_path k)) with
+           else match write_file (w_ro w) f2 (k_path k) (w_content w (k_key k)) with
                 | Some f3 => (FOk, f3)
                 | None => (FFail SWrite, f2)
                 end
          end.
 
-(* the loop; [ord] = iteration order of the map (paths that are not keys are skipped) *)
-Fixpoint write_loop (w : world) (m : list coll) (ord : list path) (f : fs) : fres * fs :=
+(* the loop; [ord] = iteration order of the map (strings that are not keys are skipped) *)
+Fixpoint write_loop (w : world) (m : list coll) (ord : list str) (f : fs) : fres * fs :=
   match ord with
   | [] => (FOk, f)
   | p :: t =>
@@ -295,7 +297,7 @@ Definition collections (w : world) : option (list coll) :=
   | Some ds => collect [] ds
   end.
 
-Definition run (w : world) (ord : list path) : exit_class * fs :=
+Definition run (w : world) (ord : list str) : exit_class * fs :=
   let f0 := w_fs w in
   match w_cfg w with
   | CfgOk =>
@@ -328,18 +330,19 @@ Definition sel_of (pd : package * decl) : list (package * request) :=
   end.
 Definition sel (ds : list (package * decl)) : list (package * request) := flat_map sel_of ds.
 Definition selected_reqs (w : world) : list (package * request) := sel (all_decls (w_pkgs w)).
-(* the designated output files *)
+(* the designated output files, and the keys of the output-file map *)
 Definition out_paths (w : world) : list path := map (fun pq => q_path (snd pq)) (selected_reqs w).
+Definition out_keys (w : world) : list str := map (fun pq => q_key (snd pq)) (selected_reqs w).
 
-(* the source package whose settings govern the file at path x (None: no such output file,
-   or the run stops before the files are grouped) *)
-Definition file_pkg (w : world) (x : path) : option package :=
+(* the source package whose settings govern the output file with key x (None: no such
+   output file, or the run stops before the files are grouped) *)
+Definition file_pkg (w : world) (x : str) : option package :=
   match collections w with
   | Some m => option_map k_pkg (find_coll m x)
   | None => None
   end.
-(* the force-file-write value that the run uses for the file at x *)
-Definition force_of (w : world) (x : path) : option bool :=
+(* the force-file-write value that the run uses for the output file with key x *)
+Definition force_of (w : world) (x : str) : option bool :=
   option_map (fun p => c_force (p_cfg p)) (file_pkg w x).
 
 (* producing the file at x fails in template retrieval, schema retrieval / validation,
@@ -347,11 +350,23 @@ Definition force_of (w : world) (x : path) : option bool :=
    templated values *)
 Definition written_ok (w : world) (k : coll) : Prop :=
   pure_failure w k = None /\ tstatus_ok (c_tstatus (p_cfg (k_pkg k))) = true.
-Definition stage_fails (w : world) (x : path) : Prop :=
-  exists m k, collections w = Some m /\ find_coll m x = Some k /\ ~ written_ok w k.
+Definition stage_fails (w : world) (x : str) (q : path) : Prop :=
+  exists m k, collections w = Some m /\ find_coll m x = Some k /\ k_path k = q /\ ~ written_ok w k.
+(* the file that the output with key x is written to *)
+Definition key_path (w : world) (x : str) : option path :=
+  match collections w with
+  | Some m => option_map k_path (find_coll m x)
+  | None => None
+  end.
 
 (* package paths are the keys of a Go map *)
 Definition wf_world (w : world) : Prop := NoDup (map p_path (w_pkgs w)).
+(* one map key per file and one file per map key.  (Violated when the same directory is
+   spelled once relative to the working directory and once absolute: known finding
+   C09-output-path-alias.) *)
+Definition no_alias (w : world) : Prop :=
+  forall p1 q1 p2 q2, In (p1, q1) (selected_reqs w) -> In (p2, q2) (selected_reqs w) ->
+    (q_key q1 = q_key q2 <-> q_path q1 = q_path q2).
 (* no output file is a directory on the way to another output file *)
 Definition no_nested (w : world) : Prop :=
   forall x y, In x (out_paths w) -> In y (out_paths w) -> strict_prefix x y = false.
@@ -395,15 +410,15 @@ Definition has_class (w : world) (c : fclass) : Prop :=
                                 (c_data_ok (p_cfg p) = false \/ q_data_ok q = false)
   | TemplateSyntax => exists p q, In (p, q) (selected_reqs w) /\ c_tparses (p_cfg p) = false
   | TemplateExecution => exists p q, In (p, q) (selected_reqs w) /\ q_exec_ok q = false
-  | InvalidGoOutput => exists p q, In (p, q) (selected_reqs w) /\ w_valid_go w (q_path q) = false /\
+  | InvalidGoOutput => exists p q, In (p, q) (selected_reqs w) /\ w_valid_go w (q_key q) = false /\
                                    w_formatter w <> FNoop
   | PrepareFailure => exists p q, In (p, q) (selected_reqs w) /\ q_prep_ok q = false
   | ConflictPackage => exists p1 q1 p2 q2, In (p1, q1) (selected_reqs w) /\ In (p2, q2) (selected_reqs w) /\
-                                           q_path q1 = q_path q2 /\ p_path p1 <> p_path p2
+                                           q_key q1 = q_key q2 /\ p_path p1 <> p_path p2
   | ConflictPkgName => exists p1 q1 p2 q2, In (p1, q1) (selected_reqs w) /\ In (p2, q2) (selected_reqs w) /\
-                                           q_path q1 = q_path q2 /\ q_pkgname q1 <> q_pkgname q2
+                                           q_key q1 = q_key q2 /\ q_pkgname q1 <> q_pkgname q2
   | ConflictTemplate => exists p1 q1 p2 q2, In (p1, q1) (selected_reqs w) /\ In (p2, q2) (selected_reqs w) /\
-                                            q_path q1 = q_path q2 /\ q_template q1 <> q_template q2
+                                            q_key q1 = q_key q2 /\ q_template q1 <> q_template q2
   | NoPackages => w_pkgs w = []
   end.
 
